@@ -117,6 +117,26 @@ Theorem C05_refuted_core_in_txn :
 Proof. exact refuted_core_in_txn. Qed.
 Print Assumptions C05_refuted_core_in_txn.
 
+(** the order must be respected by EVERY lock site: a core.Dataset writer that takes the lock of the
+    dataset its meta entity names (edge core.Dataset -> X) is not ordered and deadlocks with a batch into X *)
+Theorem C05_refuted_core_then_dataset :
+  ordered [] (batch_prog (wit_part (LDs 1) 1%N)) /\ ~ ordered [] (setns_locking_target 1) /\
+  exists c, steps (init_config [batch_prog (wit_part (LDs 1) 1%N); setns_locking_target 1]) c
+            /\ terminal c = false /\ forall c', ~ step c c'.
+Proof. exact refuted_core_then_dataset. Qed.
+Print Assumptions C05_refuted_core_then_dataset.
+
+(** mutual exclusion is per dataset (internal id), not per Go object: a writer that commits to a dataset
+    under another mutex (the lock of a stale / duplicate Dataset object) is not guarded, and a complete run
+    exists in which the feed is NOT the commits in commit order (an update is lost) *)
+Theorem C05_refuted_two_locks_one_dataset :
+  (forall other d k, other <> d -> ~ guarded [] (batch_under_other_lock other d k)) /\
+  exists c, steps (init_config [batch_under_other_lock (LDs 50) (LDs 51) 1%N;
+                                batch_prog {| p_ds := LDs 51; p_ms := [1001%N]; p_new := false |}]) c
+            /\ terminal c = true /\ feeds c (LDs 51) <> log_feed (LDs 51) (clog c).
+Proof. split; [exact other_lock_not_guarded | exact refuted_two_locks_one_dataset]. Qed.
+Print Assumptions C05_refuted_two_locks_one_dataset.
+
 (** tie to the correspondence check: a run whose observed lock trace is a trace of the
     repaired model ending in the observed feeds satisfies the executable spec *)
 Theorem C05_agree_implies_spec : forall c,
